@@ -168,10 +168,22 @@ impl Group for Serve {
             conns.push("4@0@1".into());
             v.push(format!("c12.serve {max} 1 1000000 {}", list(conns)));
         }
+        // the ladder does not depend on what the request looks like: POSTs that declare a 6 MB body and never send it
+        // (one per connection) climb it exactly like GETs — 200, then 429, then closed
+        for max in [2usize, 3] {
+            let mut conns: Vec<String> = (0..(2 * max + 2)).map(|_| "1@0@1".to_owned()).collect();
+            conns.insert(2, "2@0@1".into());
+            conns.push("4@0@1".into());
+            v.push(format!("c12.serve {max} 1 1000000 {} post", list(conns)));
+        }
         v
+    }
+    fn driver_line(&self, line: &str) -> String {
+        line.trim_end_matches(" post").to_owned()
     }
     fn run_impl(&self, _ctx: &Ctx, line: &str) -> String {
         let p: Vec<&str> = line.split(' ').collect();
+        let post = p.get(5) == Some(&"post");
         let (max, ce, reset_ms): (usize, usize, u64) = (parse_cfg(p[1]), parse_cfg(p[2]), p[3].parse().unwrap());
         let mut ext = kvarn::Extensions::empty();
         ext.add_prepare_single(
@@ -204,7 +216,8 @@ impl Group for Serve {
             let mut cl = StrictClient::new(stream);
             let mut o = Vec::new();
             for _ in 0..nreq {
-                if cl.send(b"GET / HTTP/1.1\r\nhost: localhost\r\n\r\n").is_err() {
+                let req: &[u8] = if post { b"POST / HTTP/1.1\r\nhost: localhost\r\ncontent-length: 6000000\r\n\r\n" } else { b"GET / HTTP/1.1\r\nhost: localhost\r\n\r\n" };
+                if cl.send(req).is_err() {
                     o.push("X".to_owned());
                     break;
                 }
@@ -229,6 +242,22 @@ impl Group for Serve {
         let last = outs.last()?;
         if !out.starts_with("alive=1") || last != "200" {
             return Some((format!("availability:{line}"), format!("a fresh address was not served after another address was limited: {out}")));
+        }
+        // one request per connection (the `post` lines): the k-th connection of an address makes the calls 2k-1 (accept) and
+        // 2k (request) of that address in this window; call n is answered normally for n <= max, 429 for n <= 3·max
+        let p: Vec<&str> = line.split(' ').collect();
+        if p.get(5) == Some(&"post") {
+            let max: usize = p[1].parse().ok()?;
+            let mut seen: std::collections::HashMap<String, usize> = Default::default();
+            for (c, o) in parse_list(p[4])?.iter().zip(outs.iter()) {
+                let a = c.split('@').next()?.to_owned();
+                let k = seen.entry(a.clone()).or_insert(0);
+                *k += 1;
+                let want = if 2 * *k - 1 > 3 * max { "X" } else if 2 * *k <= max { "200" } else if 2 * *k <= 3 * max { "429" } else { "X" };
+                if o != want {
+                    return Some((format!("ladder:{line}"), format!("connection {} of address {a} (max {max}): the request should be answered `{want}`, got `{o}`: {out}", *k)));
+                }
+            }
         }
         None
     }
